@@ -76,8 +76,22 @@ package pkce
 //@   ensures [C03.failed-attempt-keeps-binding] err != nil ==> pkce_exists == old(pkce_exists)
 //@   ensures [C03.fault-refuses] faults != old(faults) ==> err != nil
 //@   ensures [C18.pkce-fault-refuses] faults != old(faults) ==> err != nil
-//@   ensures [C03.success-consumes-binding] canhandle && had && err == nil ==> !pkce_exists[sig]
+// the binding is consumed by PopulateTokenEndpointResponse, not here: if the issuing step of the code handler fails afterwards (and,
+// with a transactional store, leaves the code usable), the code must still be protected by its challenge
+//@   ensures [C18.binding-not-consumed-before-issuing] !(had && challenge == "") ==> pkce_exists == old(pkce_exists)
+//@   ensures [C03.handle-keeps-binding] !(had && challenge == "") ==> pkce_exists == old(pkce_exists)
 //@   ensures [C03.refusal-class] canhandle && err != nil && faults == old(faults) ==> ekind(err) == "invalid_grant" || ekind(err) == "invalid_request"
+
+//@ func (*Handler).PopulateTokenEndpointResponse
+//@   let verifier = formget(old(requester.GetRequestForm()), "code_verifier")
+//@   let sig  = old(c.AuthorizeCodeStrategy.AuthorizeCodeSignature(ctx, formget(requester.GetRequestForm(), "code")))
+//@   let canhandle = c.CanHandleTokenEndpointRequest(ctx, requester)
+//@   requires c != nil && requester != nil
+//@   modifies pkce_exists, faults, tx_escaped
+//@   ensures [C03.success-consumes-binding] canhandle && verifier != "" && err == nil ==> !pkce_exists[sig]
+//@   ensures [C03.populate-touches-only-its-binding] (forall s string :: s != sig ==> pkce_exists[s] == old(pkce_exists[s])) && (!canhandle || verifier == "" ==> pkce_exists == old(pkce_exists))
+//@   ensures [C18.pkce-populate-fault-refuses] faults != old(faults) ==> err != nil
+//@   ensures [C18.pkce-populate-refusal-keeps-binding] err != nil ==> pkce_exists == old(pkce_exists)
 
 //@ func (*Handler).HandleAuthorizeEndpointRequest
 //@   modifies anyheap
